@@ -456,7 +456,7 @@ func stressUCI(seed int64, tier string) {
 			report("C16", "readyok", strings.Join(script, "; "), fmt.Sprintf("%s: %d isready but %d readyok", name, isready, n))
 		}
 	}
-	hostile := hostileChecks(report) + slowConsumerChecks(report)
+	hostile := hostileChecks(report) + slowConsumerChecks(report) + eofChecks(report)
 	fmt.Printf("stress rounds=%d gos=%d answered=%d stale=%d hostile=%d violations=%d\n", rounds, gos, answered, stale, hostile, viol)
 	_ = board.White
 }
